@@ -312,6 +312,10 @@ func (ab *rulesPair) equalizeGroups(ra, rb *nsxRule) []change {
 			return
 		}
 		gb := getGroup(lb[0], ab.b.groups)
+		// Group is referenced by same name, but not defined by Netspoc.
+		if gb == nil {
+			return
+		}
 		// No need to change name of group in rule from ga to gb
 		// if gb is known to have values of ga.
 		if gb.nameOnDevice == ga.Id {
